@@ -856,7 +856,7 @@ func poolPutTypes(c *core.Ctx) map[*ssa.Global][]types.Type {
 					return
 				}
 				fa, ok := st.Addr.(*ssa.FieldAddr)
-				if !ok || core.FieldOf(fa).Name() != "New" {
+				if !ok || core.FieldName(core.FieldOf(fa)) != "New" {
 					return
 				}
 				g, ok := fa.X.(*ssa.Global)
